@@ -9,6 +9,7 @@
 import CosetProofs.EncodeNoPanic
 import CosetProofs.Fuel
 import CosetProofs.Props.C02
+import CosetProofs.Cbor.Weight
 namespace Coset.Props.C01
 open Coset
 
@@ -45,6 +46,18 @@ theorem protected_bstr_no_panic (v : Value) : NP (phFromBstr v) := phFromBstr_NP
 
 /-- the CBOR parser itself: value, error or (model-only) out of fuel — it has no panic outcome at all. -/
 theorem parser_no_panic (bs : Bytes) : NP (readToValue bs) := readToValue_NP bs
+
+/-- termination without a hidden time-out: the parser never answers "out of fuel" with the fuel its entry point supplies
+    (the fuel argument exists for Lean's termination checker only), for any input of any length. -/
+theorem parser_never_out_of_fuel (bs : Bytes) : readToValue bs ≠ .err .outOfFuel := readToValue_no_oof bs
+
+/-- memory proportional to the input, logical core: the item the parser returns has at most as many nodes plus string bytes as the
+    input has bytes (one input byte is consumed per node and per string byte; nothing is allocated from a declared length). -/
+theorem parsed_size_le_input (bs : Bytes) (v : Value) (h : readToValue bs = .ok v) : v.size ≤ bs.length := readToValue_size bs v h
+
+/-- the same for any prefix parse: size of the item plus the unread rest never exceeds the input. -/
+theorem parse_consumes (fuel d : Nat) (bs : Bytes) (v : Value) (r : Bytes) (h : Cbor.parse fuel d bs = .ok (v, r)) :
+    v.size + r.length ≤ bs.length := Cbor.parse_weight fuel d bs v r h
 
 /-- re-encoding: `to_cbor_value` of headers, protected headers and signatures never panics, for any in-memory value. -/
 theorem encode_no_panic (h : Header) (s : CoseSignature) (p : ProtectedHeader) :
@@ -125,6 +138,9 @@ example : (fromSlice CoseSign.fromValue [0x84, 0x40, 0xa0, 0xf6, 0x82, 0x83, 0x4
 #print axioms decode_tagged_no_panic
 #print axioms protected_bstr_no_panic
 #print axioms parser_no_panic
+#print axioms parser_never_out_of_fuel
+#print axioms parsed_size_le_input
+#print axioms parse_consumes
 #print axioms encode_no_panic
 #print axioms decoded_protected_serialises
 #print axioms sign1_followup_no_panic
